@@ -121,6 +121,43 @@ Proof.
 Qed.
 Print Assumptions C10_rollback_identity.
 
+(* Vector-valued (per-variable) keywords: centers, targetCenters, maxForce, gaussianSigmas, gaussianSigma, walls, grid
+   widths/boundaries ...  An accepted list has exactly one token per variable, every token is a valid value (validated as
+   the scalar keywords are), the stored values are those values in order, and each satisfies the element check; a
+   keyword given without a value is always rejected, an absent one too when the destination is not pre-sized. *)
+Theorem C10_vector_keyword_validated :
+  (forall n presized elem_ok ts v, vector_keyword n presized elem_ok (Some ts) = (v, false) ->
+     List.length ts = n /\ List.length v = n /\ map tok_value ts = map Some v /\ forallb elem_ok v = true) /\
+  (forall n elem_ok, (0 < n)%nat ->
+     snd (vector_keyword n false elem_ok None) = true /\ forall p, snd (vector_keyword n p elem_ok (Some [])) = true).
+Proof. exact (conj vector_keyword_accept vector_keyword_missing). Qed.
+Print Assumptions C10_vector_keyword_validated.
+
+Example C10_example_vector :
+  vector_keyword 2 true (fun _ => true) (Some [TokInt 1; TokFrac 2 5 2]) = ([1 # 1; 5 # 2], false) /\
+  snd (vector_keyword 2 true (fun _ => true) (Some [TokInt 1])) = true /\
+  snd (vector_keyword 2 false (fun _ => true) (Some [TokInt 1; TokInt 2; TokInt 3])) = true /\
+  snd (vector_keyword 2 true (fun _ => true) (Some [TokInt 1; TokWord])) = true /\
+  snd (vector_keyword 2 false (fun q => Qle_bool 0 q) (Some [TokInt 1; TokInt (-1)])) = true.
+Proof. vm_compute. repeat split. Qed.
+
+(* Roll-back of objects whose initialisation raised an error through a BARE cvm::error() (return value dropped, init
+   goes on and may return COLVARS_OK): because the error state is consulted at the end of the initialisation
+   (parse_analysis returns cvm::get_error(); check_new_bias tests it), (1) every variable that parse_colvars keeps comes
+   from a block that raised no error at all, returned or bare; (2) a configuration whose first block raised one leaves
+   both lists unchanged; (3) WITHOUT that consultation (the seeded change C10_1: parse_analysis returning its own error
+   code) a block with a bare error stays in the list. *)
+Theorem C10_rollback_bare_errors :
+  (forall bs st n, In n (accepted_cvs (map (to_block true) bs) (l_colvars st)) ->
+     exists b, In b bs /\ ib_name b = n /\ raises b = false) /\
+  (forall b r bt st, raises b = true ->
+     l_colvars (parse_config (map (to_block true) (b :: r)) bt st) = l_colvars st /\
+     l_biases (parse_config (map (to_block true) (b :: r)) bt st) = l_biases st) /\
+  (exists b st, raises b = true /\
+     l_colvars (parse_colvars (map (to_block false) [b]) st) = l_colvars st ++ [ib_name b]).
+Proof. exact (conj rollback_bare_errors (conj rollback_bare_first rollback_noconsult_refuted)). Qed.
+Print Assumptions C10_rollback_bare_errors.
+
 (* What the code did BEFORE the repairs (fix: commits in /repo), kept as witnesses; the check reports a violation if
    the tree behaves like this again. *)
 Theorem C10_before_repair_refuted :
